@@ -62,6 +62,7 @@ func init() {
 			"R7 a nil return happens only after the old key was destroyed or the previous primary version name was found empty. R5 Bootstrap: Finalize only after both signing steps succeeded, nil return ⇒ Finalize:ok. R6 the newly created key (operand derived from CreateNewSigningKeyVersion) is never destroyed once Finalize succeeded. R8 (shared with C11.R7) the storage-backed authority's certificate upload returns success after the gate only where the key version's manifest entry was found or appended, so a rotation retried after a fault cannot finalize a primary key that has no listed certificate. " +
 			"Every fault position of the property's quantifier is the :fail edge of one of the tracked calls; crash points between calls are covered by R1's ordering. " +
 			"R9 (= C11.R1/R2/R6) Finalize of the storage-backed authority writes the manifest last and never after a failed upload, and storage/ops.WriteFile returns nil only after Writer, Write and Close all succeeded — otherwise rotate.Key would destroy the old key although the new primary was not durably recorded. " +
+			"R12 Signer.PublicKey implementations write nothing rooted at their receiver or in package-level state. " +
 			"R11 every implementation of ManagerInterface.CreateNewSigningKeyVersion returns success only after a key-creating call (Create*/Generate*) succeeded in that call. " +
 			"R10 context continuity: in the call closure of rotate.Key / rotate.Bootstrap no call receives a context rooted at context.Background()/TODO() (the operator's options, e.g. overwrite permission for the leftovers of a failed attempt, travel in the context). " +
 			"Not covered: that the surviving state works (reload + sign), the later fault-free rotation, KMS/HSM behaviour.",
@@ -341,6 +342,39 @@ func runC10(c *Ctx) {
 	// context.TODO) would silently drop them (for instance the permission to overwrite the leftovers of a failed
 	// attempt, on which the "later fault-free rotation succeeds" clause rests).
 	c.contextContinuity("R10", []*ssa.Function{key, boot})
+
+	// R12: reading a key's public half does not write the signer. The certificate of a new key version is made from
+	// what Signer.PublicKey returns for its name; a PublicKey that keeps an answer (a per-name cache) returns the
+	// abandoned first attempt's key after a retried rotation generated a new key under the same deterministic name.
+	{
+		nPub := 0
+		for _, f := range c.P.RepoFunctions() {
+			if c.isTestFunc(f) || f.Name() != "PublicKey" || f.Signature.Recv() == nil || f.Blocks == nil || f.Parent() != nil || f.Synthetic != "" || len(f.Params) == 0 {
+				continue
+			}
+			if rel := load.RelPkg(f); strings.HasPrefix(rel, "testing/test") {
+				continue
+			}
+			nPub++
+			recv := f.Params[0]
+			clo := c.reachable([]*ssa.Function{f}, func(g *ssa.Function) bool { return load.FuncInRepo(g) })
+			delete(clo, nil)
+			eff := &flow.Effects{P: c.P, Funcs: clo, Roots: map[*ssa.Function]bool{f: true}}
+			bad := 0
+			for _, w := range eff.Writes() {
+				for _, rt := range w.Shared() {
+					if rt.V == ssa.Value(recv) || rt.Kind == flow.GlobalRoot {
+						bad++
+						c.S.Bad("R12", load.FuncName(f)+":read-only", c.pos(w.Instr.Pos()), "PublicKey writes "+w.What+" of the signer (or of package-level state): an answer kept per key-version name outlives the key, and the certificate of a key regenerated under that name is made for the old key")
+					}
+				}
+			}
+			if bad == 0 {
+				c.S.OK("R12", load.FuncName(f)+":read-only", c.pos(f.Pos()), "writes nothing that outlives the call", false)
+			}
+		}
+		c.S.Floor("R12", "Signer.PublicKey implementations", 2, nPub)
+	}
 
 	// R11: every implementation of ManagerInterface.CreateNewSigningKeyVersion returns, on success, a key version it
 	// created in this call: a nil-error return follows a successful key-creating call (a method or function whose
